@@ -435,7 +435,8 @@ let run_rdoc (id : string) (fields : sexp list) =
          | Some out -> hex_of_bytes (utf8_encode out)
          | None -> "PANIC")
     with Failure _ -> "NOTUTF8" in
-  Printf.printf "%s\tRDOC\t%s\t%s\t%s\n" id (show (render_html full doc)) (show (render_roff th doc)) console
+  Printf.printf "%s\tRDOC\t%s\t%s\t%s\t%s\n" id (show (render_html full doc)) (show (render_roff th doc)) console
+    (show (render_markdown full doc))
 
 let run_render (id : string) (fields : sexp list) =
   let doc = match List.filter (function L (A "doc" :: _) -> true | _ -> false) fields with
@@ -625,8 +626,9 @@ let run_case (line : string) =
           let bind o f = match o with Some x -> f x | None -> None in
           let dh = collect_html env app m i in
           let dr = manpage_doc env app m i in
-          Printf.printf "%s\tDOCS\t%s\t%s\t%s\t%s\n" id
+          Printf.printf "%s\tDOCS\t%s\t%s\t%s\t%s\t%s\n" id
             (show (bind dh (render_html true))) (show (bind dr (render_roff (manpage_th app)))) (sd dh) (sd dr)
+            (show (bind dh (render_markdown true)))
         | [A "invariant"] -> Printf.printf "%s\tINVARIANT\t%b\t%b\n" id (invariant_ok (match o with Options (p, _) -> meta_of p)) (oko o)
         | _ -> Printf.printf "%s\tBADMODE\n" id)
      with Failure m -> Printf.printf "%s\tBADCASE\t%s\n" id m
